@@ -45,6 +45,7 @@ func resolveHosts(o gwOpts) gwOpts {
 
 func genC01(t *rapid.T) c01Case {
 	o := genC01Opts(t)
+	o.ClientNames = rapid.Bool().Draw(t, "clientNamePolicy") // the real binary wires no such policy: in-process only
 	c := c01Case{Opts: o, Kind: genKind(t), Hist: genHistory(t, o)}
 	if c.Kind == "legacy" && rapid.IntRange(0, 7).Draw(t, "secondIn") == 0 {
 		c.Via = "second-in-early"
